@@ -3311,7 +3311,7 @@ namespace gch
       template <unsigned I>
       GCH_CPP20_CONSTEXPR
       small_vector_base (bypass_tag, small_vector_base<Allocator, I>&& other)
-        noexcept ((std::is_nothrow_move_constructible<value_ty>::value && I <= InlineCapacity)
+        noexcept ((is_explicitly_nothrow_move_insertable<value_ty>::value && I <= InlineCapacity)
               ||  (I == 0 && I == InlineCapacity))
         : alloc_interface (std::move (other))
       {
